@@ -419,7 +419,8 @@ class WGen:
         self.toks()
         self.step("count", 1)
         kind = r.choice(["good", "lookalike", "lookalike-only", "young", "unconfirmed", "foreign-sender", "attest-bad", "attest-good",
-                         "orphan-race", "reinclude", "malformed", "unknown-tx", "multi", "multi", "multi", "other-index"])
+                         "orphan-race", "reinclude", "malformed", "malformed", "malformed", "unknown-tx", "multi", "multi", "multi",
+                         "other-index"])
         if kind == "multi":
             return self.reobs_multi()
         ts = -5000
@@ -444,8 +445,7 @@ class WGen:
         if kind == "attest-good":
             target = self.good(b, kind="attest", tok="t1", claim="m1", cl=0)
         if kind == "malformed":
-            target = self.good(b, cl=0)
-            self.emit(b, ok=False, tb=r.random() < 0.5, tx=target["tx"])
+            return self.reobs_malformed()
         if kind == "unknown-tx":
             target = self.good(b, cl=0)
         if kind == "other-index":        # the core contract emits, in this tx, an event that is not a WormholeMessage
@@ -481,6 +481,51 @@ class WGen:
             self.op(op="req", tx=tx, chain=r.choice([1, 2, 4, 254, 256, 65535, 65791]))
         else:
             self.op(op="req", tx=tx, len=r.choice([31, 33, 20, 1]))
+
+    def reobs_malformed(self, bad=None, shape=None, pre=None):
+        """Re-observation requests for transactions whose core-contract events have MALFORMED fields (every malformation
+        the polling path gets: wrong field count, wrong types, oversize values ...): alone in the tx, before / after a
+        well-formed message of the same tx, transfer- or attestation-shaped, token-bridge or foreign sender; emitted before
+        the watcher started (re-observation alone) or polled as well.  Nothing of the malformed event may come out, the
+        watcher must stay up, and the requests that follow must still be taken and served."""
+        r = self.r
+        self.new(page=r.choice([1, 2, 3]))
+        self.toks()
+        pre = r.random() < 0.4 if pre is None else pre
+        if not pre:
+            self.step("count", 1)
+        bad = bad or r.choice(BAD_KINDS)
+        shape = shape or r.choice(["alone", "before-good", "after-good", "two-bad", "attest-shaped"])
+        b = self.block(ts=-5000)
+        kw = dict(ok=False, bad=bad, tb=r.random() < 0.6, cl=r.choice([0, 1]))
+        if shape == "attest-shaped":
+            kw.update(kind="attest", tok=r.choice(["t1", "t2"]), claim="m1")
+        good = None
+        if shape == "after-good":
+            good = self.good(b, cl=0)
+        m = self.emit(b, tx=good["tx"] if good else None, **kw)
+        if shape == "before-good":
+            good = self.good(b, cl=0, tx=m["tx"])
+        if shape == "two-bad":
+            self.emit(b, ok=False, bad=r.choice(BAD_KINDS), tb=True, tx=m["tx"])
+        other = self.good(b, cl=0)                      # a well-formed message in a tx of its own
+        self.raise_height(2)
+        if pre:
+            self.step("count", 1)
+        else:
+            self.step(None)
+        self.op(op="req", tx=m["tx"])
+        if r.random() < 0.5:
+            self.step(None)
+        self.op(op="req", tx=other["tx"])               # the next request must still be served
+        self.op(op="req", tx=m["tx"])
+        self.step(None)
+        nb = self.block(ts=-5000)                       # and the polling path is still alive
+        self.good(nb, cl=0)
+        self.step(None)
+        self.raise_height(1)
+        self.op(op="req", tx=other["tx"])
+        return finish_scenario(self.sc, "gen", "reobs:malformed")
 
     def reobs_multi(self, order=None, foreign=None, young=None):
         """C08 re-observation of a transaction that carries SEVERAL messages of the core contract with different consistency
@@ -973,6 +1018,11 @@ def watch_validate(work, lines, tag="w"):
     if not hw or not fin or fin[-1]["lines"] != len(lines):
         raise vlib.Broken("watcher trace validation did not finish:\n" + r["out"][-3000:])
     hwm = [hw.get(i + 1, 0) for i in range(len(hw))]
+    # messages forwarded by the re-observation path in the accepted scenarios (per scenario: the explanation with most)
+    ro = {}
+    for a, b in re.findall(r'<<"REOBS", (\d+), (\d+)>>', r["out"]):
+        ro[int(a)] = max(ro.get(int(a), 0), int(b))
+    r["reobs_forwards"] = sum(ro.values())
     resets = [i for i, ln in enumerate(lines) if ln["ev"] == "Reset"]
     if len(hwm) != len(resets):
         raise vlib.Broken("trace validation reported %d scenarios, %d recorded" % (len(hwm), len(resets)))
@@ -1019,6 +1069,12 @@ def classify(rj, scen_lines, mainnet):
         shape = next((x["a"]["ans"] for x in reversed(upto) if x["ev"] == "Req" and x["a"]["route"] == "multicall"), "none")
         what = "nil-deref" if "nil pointer" in ln["a"].get("what", "") else re.sub(r"[^A-Za-z0-9]+", "-", ln["a"].get("what", ""))[:40]
         # the process died: whatever the scenario was about, neither safety nor delivery can be claimed for it
+        frames = " ".join(ln["a"].get("where") or [])
+        if re.search(r"handleObsvRequest|getGovernanceEventsByTxId|handleGovernanceMessages", frames):
+            # on the re-observation route: was the transaction one with a malformed event of the core contract?
+            last = next((x for x in reversed(upto) if x["ev"] == "Req" and x["a"]["route"] == "events-tx" and not x["a"].get("fail")), None)
+            bad = last is not None and any(e["gov"] and e["ei"] == 0 and not e["ok"] for e in last["a"]["evs"])
+            return "C08+C09", "crash/reobservation/%s/%s/%s" % ("malformed-event" if bad else "no-malformed-event", where, what)
         return "C08+C09", "crash/%s/%s/last-multicall=%s" % (where, what, shape)
     # Run ended although no API error was served: whichever line of that episode TLC could not explain first (the
     # fetcher goes on for a moment after reporting the error), it is the same event
@@ -1085,6 +1141,12 @@ def classify(rj, scen_lines, mainnet):
     if ln["ev"] == "End":
         if ln["a"].get("spin"):
             return "C09", "liveness/spin"
+        if ln["a"].get("untaken") and not ln["a"].get("missing"):
+            # requests were put on the re-observer's channel and never taken: it is stalled (or gone)
+            reqs = [x["a"]["tx"] for x in scen_lines if x["ev"] == "Env" and x["a"]["op"] == "req"]
+            ev_all, _ = _event_table(scen_lines)
+            bad = any(e["tx"] in reqs and e["gov"] and (not e["ok"] or e["ei"] != 0) for e in ev_all.values())
+            return "C09", "liveness/reobserver-stalled/%s" % ("after-malformed-event" if bad else "no-malformed-event")
         ev_all, _ = _event_table(scen_lines)
         miss = [ev_all.get(i, {}) for i in ln["a"].get("missing", [])]
         if miss and all(m.get("cl") == 255 for m in miss):
@@ -1135,6 +1197,15 @@ def pinned(prop):
         if sc is None:
             raise vlib.Broken("pinned scenario apifail-reobs-%s violates the time margins" % route)
         sc["src"], sc["family"] = "pinned", "pinned:apifail-reobs-" + route
+        res.append(sc)
+    # re-observation of transactions with a malformed core-contract event: every malformation kind (C09), three of them (C08)
+    shapes = ["alone", "before-good", "after-good", "two-bad", "attest-shaped"]
+    for k, bad in enumerate(BAD_KINDS if prop == "C09" else BAD_KINDS[:3]):
+        g = WGen(random.Random("reobs-malformed-" + bad))
+        sc = g.reobs_malformed(bad=bad, shape=shapes[k % len(shapes)], pre=(k % 2 == 0))
+        if sc is None:
+            raise vlib.Broken("pinned scenario reobs-malformed-%s violates the time margins" % bad)
+        sc["src"], sc["family"] = "pinned", "pinned:reobs-malformed-" + bad
         res.append(sc)
     if prop == "C08":
         # the core contract emits another event index in the re-observed tx: only WormholeMessage events count
